@@ -1313,17 +1313,30 @@ impl Gen<'_> {
             e => e,
         }
     }
+    /// comb fusion inlines a definition into its single reader with the width of the right-hand
+    /// side, not of the variable (known defect class when the reader is width-sensitive): below S4
+    /// the right-hand side of a combinational definition is as wide as its target
+    fn widen(&mut self, e: E, w: usize, comb: bool) -> E {
+        if comb && self.level < 4 && e.size(&self.vars) < w && !matches!(e, E::Lit(..)) {
+            let s = e.sgn(&self.vars);
+            return E::Bin("or", Box::new(e), Box::new(E::Lit(w, s && w > 1, "0".into())));
+        }
+        e
+    }
     /// `t = e` on the whole variable or on a random range
     fn set(&mut self, t: usize, avail: &[usize], allow_part: bool) -> S {
+        let comb = self.vars[t].kind.is_comb();
         let w = self.vars[t].width;
         let e = self.rhs(avail);
         if allow_part && w >= 2 && self.r.chance(1, 3) {
             let sw = self.r.range(1, w as u64 - 1) as usize;
             let lo = self.r.range(0, (w - sw) as u64) as usize;
             let e = self.fit(e, sw);
+            let e = self.widen(e, sw, comb);
             S::Set(t, lo, sw, e)
         } else {
             let e = self.fit(e, w);
+            let e = self.widen(e, w, comb);
             S::Set(t, 0, w, e)
         }
     }
@@ -1334,10 +1347,12 @@ impl Gen<'_> {
             let mid = self.r.range(1, w as u64 - 1) as usize;
             let (a, b) = (self.rhs(avail), self.rhs(avail));
             let (a, b) = (self.fit(a, w - mid), self.fit(b, mid));
+            let (a, b) = (self.widen(a, w - mid, true), self.widen(b, mid, true));
             vec![S::Set(t, mid, w - mid, a), S::Set(t, 0, mid, b)]
         } else {
             let a = self.rhs(avail);
             let a = self.fit(a, w);
+            let a = self.widen(a, w, true);
             vec![S::Set(t, 0, w, a)]
         }
     }
